@@ -9,7 +9,7 @@ ASSUMPTIONS = [
 
 
 def run(ctx):
-    ctx, tb, dist = R.run_rt(ctx, "C03", 600, 12000, with_edits=True)
+    ctx, tb, dist = R.run_rt(ctx, "C03", 600, 8000, with_edits=True)
     return ctx.finish(tb, ASSUMPTIONS, "generated problems x programs of 1-8 valid API edits (renumberings, densities, importances, volumes, surface constants, fractions, transform vectors, material assignment, title); distinct = distinct (text, program)", extra={"input_distribution": dist})
 
 
